@@ -36,7 +36,9 @@ def _link_pointee_to_problem(self, obj):
     as the cell's surfaces and complements collections do for the dividers put into them.
     Without the link the object's reverse look-up (``.cells``) cannot see this cell.
     """
-    if obj is not None and self._problem and not obj._problem:
+    # also an object that is still linked to another problem (a deepcopy of a member carries a
+    # hidden copy of its problem along; an object taken from a second problem): it now belongs here
+    if obj is not None and self._problem and obj._problem is not self._problem:
         obj.link_to_problem(self._problem)
 
 
